@@ -1,8 +1,14 @@
 #!/bin/sh
 # Run once after a fresh restore, offline: generate tables from /repo and build the Lean project.
-set -e
+# A property whose theorems do not build does not fail the setup: its own check reports that.
 cd "$(dirname "$0")"
 export PYTHONPATH="${VERIF_REPO:-/repo}:$PYTHONPATH"
-/venv/bin/python translate/gen_tables.py
+/venv/bin/python translate/gen_tables.py || exit 1
+/venv/bin/python tools/gen_main.py || exit 1
 cd lean
-lake build
+lake build BSModel.AuditCmd bsdriver || echo "setup: driver build failed (checks will report)"
+for f in BSModel/Props/C*.lean; do
+  m=$(basename "$f" .lean)
+  lake build "BSModel.Props.$m" >/dev/null 2>&1 || echo "setup: BSModel.Props.$m did not build (its check will report)"
+done
+exit 0
